@@ -316,7 +316,12 @@ func (g *Gen) delegate(vi int, chain string, valid bool) {
 		op = "delegatek" // the signature comes from the repository's keys generator
 		g.stats["keys:signature-from-the-keys-generator"]++
 	}
-	out := g.do(fmt.Sprintf("%s %s %s %s %s %s %s %d %d", op, chain, v.addr, orch, eth, signedBy, signedVal, nonce, seq))
+	spelled := eth
+	if g.rng.Intn(4) == 0 {
+		spelled = respell(g.rng, eth) // the message may spell the address in any way the address parser accepts
+		g.stats["keys:external-address-in-another-spelling"]++
+	}
+	out := g.do(fmt.Sprintf("%s %s %s %s %s %s %s %d %d", op, chain, v.addr, orch, spelled, signedBy, signedVal, nonce, seq))
 	if out == "ok" {
 		v.orch[chain] = orch
 		v.eth[chain] = eth
